@@ -9,7 +9,7 @@ from ..defuse import flatten_order, is_sym, key, norm_chains, show, strip_norm, 
 from ..engine import own_walk
 from ..model import AnalysisInconclusive
 from . import labware_loop as LL
-from .common import call_fname, elem_parts, has_unknown, same_seq, seq_transformers, stmt_key
+from .common import call_fname, elem_parts, has_unknown, same_seq, seq_transformers, stmt_key, is_name
 
 EXPLANATION = (
     "C04: shape of the in-place update loops. Every store into the volume array is a single-element store whose index is "
@@ -177,6 +177,55 @@ def length_guard(ctx, kind: str) -> None:
                     found = True
     ctx.rep.check(found, rule, f"{f.qualname}/length-guard", "len(volumes) == len(wells) is established before the loop",
                   "no guard establishes len(volumes) == len(wells) before the zip loop: surplus wells or volumes are silently dropped", where=f.where(fv.cfg.nodes[head].ast))
+    # every further sequence zipped into the loop (the compositions) must be as long as the wells as well:
+    # zip() stops at the shortest one, and the wells beyond it would not be charged at all
+    hn = fv.cfg.nodes[head]
+    raw_it = hn.ast.iter
+    while isinstance(raw_it, ast.Call) and call_fname(raw_it) == "enumerate" and raw_it.args:
+        raw_it = raw_it.args[0]
+    raw_args = list(raw_it.args) if isinstance(raw_it, ast.Call) and call_fname(raw_it) == "zip" else []
+    for a in raw_args:
+        ra = fv.res.resolve(a, head)
+        if _loop_param_seq(fv, ra) in ("wells", "volumes"):
+            continue
+        c = f"{f.qualname}/length-guard[{show(a)[:20]}]"
+        w = f.where(hn.ast)
+        if not isinstance(a, ast.Name):
+            ctx.rep.inconclusive(rule, c, f"cannot relate the length of `{show(a)[:40]}` to the wells", where=w)
+            continue
+        defs = sorted(fv.cfg.reaching()[head].get(a.id, ()))
+        guards = set()
+        for gn, test, pol_raise, r in fv.raising_guards():
+            t = fv.res.resolve(test, gn.id)
+            cc, pp = t, not pol_raise  # condition that holds when the guard is passed
+            while isinstance(cc, ast.UnaryOp) and isinstance(cc.op, ast.Not):
+                cc, pp = cc.operand, not pp
+            if isinstance(cc, ast.Compare) and len(cc.ops) == 1 and ((isinstance(cc.ops[0], ast.Eq) and pp) or (isinstance(cc.ops[0], ast.NotEq) and not pp)):
+                x, y = cc.left, cc.comparators[0]
+                if call_fname(x) == "len" and call_fname(y) == "len" and x.args and y.args:
+                    names = [x.args[0], y.args[0]]
+                    if any(is_name(strip_norm(n_), a.id) or is_name(n_, a.id) for n_ in names) and any(same_seq(n_, wl[0]) for n_ in names):
+                        guards.add(gn.id)
+        verdict, detail = True, f"`{a.id}` is as long as the wells on every path ({len(guards)} length guard(s))"
+        for d in defs:
+            dn = fv.cfg.nodes[d]
+            if dn.kind == "stmt" and isinstance(dn.ast, ast.Assign):
+                v = dn.ast.value
+                by_construction = isinstance(v, ast.BinOp) and isinstance(v.op, ast.Mult) and any(
+                    call_fname(sd) == "len" and sd.args and same_seq(fv.res.resolve(sd.args[0], d), wl[0]) for sd in (v.left, v.right))
+                if not by_construction:
+                    verdict, detail = None, f"cannot relate the length of `{stmt_key(dn.ast)[:50]}` to the wells"
+                continue
+            # the caller's sequence: every path on which it reaches the loop unchanged must pass a length guard
+            blocked = set(guards) | {x for x in defs if x != d}
+            start = [s_ for s_, lab in dn.succ if lab != "exc"] if dn.kind != "entry" else [s_ for s_, lab in dn.succ]
+            reach = set()
+            for s_ in start:
+                reach |= fv.cfg.reachable_from(s_, blocked)
+            if head in reach and verdict is True:
+                verdict, detail = False, (f"the caller's `{a.id}` can reach the zip loop without a check that it is as long as the wells: zip() stops at the shortest "
+                                          "sequence, so the wells beyond it are silently not charged")
+        ctx.rep.check(verdict, rule, c, detail, detail, where=w)
 
 
 def check_sequence_normalisation(ctx, rule: str, fv, term: ast.AST, construct: str, where: str, what: str) -> None:
